@@ -38,6 +38,7 @@ class Ctx:
 
     def replay(self, mod, path):
         rec = json.load(open(path))
+        self.verdicts.keep_old = True
         case = rec["case"]
         if hasattr(mod, "replay"):
             return mod.replay(self, rec)
